@@ -133,9 +133,13 @@ def decode_no_raw_echo(ctx, rule='A6'):
                       isinstance(st.value, (ast.ListComp, ast.GeneratorExp)) and none_test(st.value.elt)}
         for g_ in [x for c_ in ast.walk(f.node) if isinstance(c_, (ast.ListComp, ast.GeneratorExp, ast.SetComp))
                    for x in c_.generators] + [x for x in ast.walk(f.node) if isinstance(x, ast.For)]:
-            if isinstance(g_.iter, ast.Call) and call_name(g_.iter) == 'zip' and isinstance(g_.target, ast.Tuple) and \
-                    len(g_.target.elts) == len(g_.iter.args):
-                for t_, a_ in zip(g_.target.elts, g_.iter.args):
+            it_, tg_ = g_.iter, g_.target
+            if isinstance(it_, ast.Call) and call_name(it_) == 'enumerate' and it_.args and \
+                    isinstance(tg_, ast.Tuple) and len(tg_.elts) == 2:
+                it_, tg_ = it_.args[0], tg_.elts[1]     # `for i, (v, act) in enumerate(zip(values, is_active))`
+            if isinstance(it_, ast.Call) and call_name(it_) == 'zip' and isinstance(tg_, ast.Tuple) and \
+                    len(tg_.elts) == len(it_.args):
+                for t_, a_ in zip(tg_.elts, it_.args):
                     if isinstance(t_, ast.Name) and isinstance(a_, ast.Name) and a_.id in list_flags:
                         flags[t_.id] = list_flags[a_.id]
 
